@@ -383,6 +383,23 @@ Fixpoint bufread_all (b : body) (amts : list N) (acc : bytes) : bytes * outcome 
       end
   end.
 
+(* (fix F21) drain reports whether it reached the end of the body: false when a read fails (the body is cut short or
+   malformed); the request loop then closes the connection after the response *)
+Fixpoint drain_ok (fuel : nat) (b : body) : bool :=
+  match fuel with
+  | O => false
+  | S fuel' =>
+      match b with
+      | BEof _ | BEmpty _ => true
+      | _ =>
+          match body_read 1024%N b with
+          | RErr _ _ => false
+          | ROk [] _ => true
+          | ROk _ b' => drain_ok fuel' b'
+          end
+      end
+  end.
+
 (* BodyReader::drain (on drop): read 1024 bytes at a time until Ok(0) or an error *)
 Fixpoint drain (fuel : nat) (b : body) : body :=
   match fuel with
